@@ -19,3 +19,21 @@ def run(cx):
     if fn is not None:
         S.s_jadd(cx, 'S-JADD', fn, 'Point::Point')
     D.d_deadpure(cx, 'D-DEADPURE', ('gm_sm2',), floor_calls=100)
+
+
+_run1 = run
+
+
+def run(cx):
+    from .. import rules_s as S, rules_i as I
+    _run1(cx)
+    S.s_siblings(cx, 'S-SIBLING')
+    fn = cx.fn('gm_sm2::p256_ecc::<impl p256_ecc::Point>::zero', 'I-INF-ENC')
+    if fn is not None:
+        r = [v for _, v in I.returns(fn, cx.F, True)]
+        cx.add('I-INF-ENC', fn.short, r == ['Point::Point{SM2_MODP_MONT_ONE, SM2_MODP_MONT_ONE, SM2_ZERO}'], 'the identity is encoded as (1 : 1 : 0): %s' % r, fn.loc())
+    fn = cx.fn('gm_sm2::p256_ecc::<impl p256_ecc::Point>::to_affine_point', 'I-AFFINE')
+    if fn is not None:
+        r = [v for _, v in I.returns(fn, cx.F, True)]
+        want = 'Point::Point{fp_mul($self.x, fp_sqr(fp_inv($self.z))), fp_mul($self.y, fp_mul(fp_sqr(fp_inv($self.z)), fp_inv($self.z))), SM2_MODP_MONT_ONE}'
+        cx.add('I-AFFINE', fn.short, r == [want], 'affine conversion is (X/Z^2, Y/Z^3, 1): %s' % r, fn.loc())
